@@ -1224,12 +1224,14 @@ Section Erase.
     - (* FT *)
       destruct (forallb _ args); [|reflexivity].
       rewrite E_mapM_arg_val. destruct (mapM (arg_val a c) args); cbn [rmap bind]; try reflexivity.
+      destruct (existsb _ args); [reflexivity|].
       rewrite E_to_liquid_string. destruct (to_liquid_string left); cbn [bind]; try reflexivity.
       rewrite E_tr_gettext. destruct (tr_gettext c a1); cbn [bind]; try reflexivity.
       destruct (format_message a2); reflexivity.
     - (* FGettext *)
       destruct (forallb _ args); [|reflexivity].
       rewrite E_mapM_arg_val. destruct (mapM (arg_val a c) args); cbn [rmap bind]; try reflexivity.
+      destruct (existsb _ args); [reflexivity|].
       rewrite E_to_liquid_string. destruct (to_liquid_string left); cbn [bind]; try reflexivity.
       rewrite E_tr_gettext. destruct (tr_gettext c a1); cbn [bind]; try reflexivity.
       destruct (format_message a2); reflexivity.
